@@ -41,7 +41,7 @@ def cfg_hook(rng, cfg, fam, i):
 
 def gen_cases(tier, seed):
     fams = ["stripe-stress", "buffer-stress", "lut-stress", "alias-stress", "exact-chain", "exact-dag", "cpu-mix", "approx-tail", "exact-chain-big", "stripe-stress", "buffer-stress", "lut-stress", "stripe-resize", "shared-weights", "buffer-stress", "mixed-width", "cpu-mix"]
-    return campaign.gen_cases(tier, seed, 3, 420, 12000, families=fams, cfg_hook=cfg_hook)
+    return campaign.gen_cases(tier, seed, 3, 420, 12000, families=fams, cfg_hook=cfg_hook, extra=[("shape-ops", 24, 500), ("approx-tail2", 12, 300)])
 
 
 def interval(off, size):
@@ -205,6 +205,17 @@ def run_case(case):
             writer_tags(c, log, viol, counters)
             writer_tags_model(c, log, viol, counters)
             poison_differential(c, viol, counters)
+            from checks import c01
+
+            if c01.PACK_FEATURE in c01.net_features(c.net):
+                # the recorded finding about PACK results with a leading dimension above one (only batch 0 of such a tensor is copied): its symptoms carry the
+                # discriminator, every other mechanism on such a network is reported as usual
+                counters["networks_with_batched_pack"] = 1
+                for m in list(viol):
+                    if m == "output-depends-on-arena-poison" or m.startswith("read-of-undefined-bytes:region1:") or m == "npu-output-not-completely-written":
+                        v_ = viol.pop(m)
+                        v_["mech"] = m + ":" + c01.PACK_FEATURE
+                        viol[v_["mech"]] = v_
     finally:
         c.cleanup()
     return {"violations": list(viol.values()), "counters": counters,
